@@ -43,7 +43,7 @@ REG_EPS = 1e-4
 # ------------------------------------------------------------------------------------------ TLC
 
 
-GENERATORS = {"C08": ["DoSwapCols", "DoNegCol", "DoHadamard", "AppendZero"],
+GENERATORS = {"C08": ["DoSwapCols", "DoNegCol", "DoHadamard", "AppendZero", "PadZero|DoPadZero"],
               "C09": ["DoBumpC1", "DoBumpC2", "BumpA", "BumpB"],
               "C10": ["DoSwapRows"]}
 INVARIANT_OF = {"C08": "LawC08", "C09": "LawC09", "C10": "LawC10"}
@@ -65,7 +65,9 @@ def model_check(ctx: Ctx, pid: str, cfgs: list[str]) -> list[dict]:
         need = {"cols": GENERATORS["C08"], "scale": GENERATORS["C09"], "rows": GENERATORS["C10"],
                 "mixed": GENERATORS["C08"] + GENERATORS["C10"]}.get(mode, [])
         for act in need:
-            if not res.coverage.get(act):
+            if mode == "mixed" and "PadZero" in act:
+                continue                      # the mixed configuration offers no padding counts
+            if not any(res.coverage.get(a) for a in act.split("|")):
                 raise MachineryError(f"vacuous model check ({cfg}): generator {act} never taken")
         out += scn
     if not out:
@@ -79,6 +81,32 @@ def model_check(ctx: Ctx, pid: str, cfgs: list[str]) -> list[dict]:
 def ld(mat, e: int, den: int = 1) -> torch.Tensor:
     """The float64 matrix  2^e * mat / den  (exact: small integers, power-of-two factors)."""
     return torch.ldexp(torch.tensor(mat, dtype=F64) / den, torch.tensor(e))
+
+
+def present(M: torch.Tensor, s: dict) -> torch.Tensor:
+    """The matrix actually handed to the aggregators: the materialised columns of the scenario at the positions
+    `padpos` exported by the model (spec PadPos), all-zero columns everywhere else (PadZero(k, layout))."""
+    k = s["pad"]["cnt"]
+    if not k:
+        return M
+    out = torch.zeros(M.shape[0], M.shape[1] + k, dtype=M.dtype)
+    out[:, pad_index(s)] = M
+    return out
+
+
+def pad_index(s: dict) -> torch.Tensor:
+    return torch.tensor([p - 1 for p in s["padpos"]], dtype=torch.long)
+
+
+def split_padded(x: torch.Tensor, s: dict) -> tuple[torch.Tensor, float]:
+    """(entries of x on the materialised columns, largest |entry| on the padded zero columns)"""
+    if not s["pad"]["cnt"]:
+        return x, 0.0
+    idx = pad_index(s)
+    mask = torch.ones(x.shape[-1], dtype=torch.bool)
+    mask[idx] = False
+    rest = x[..., mask]
+    return x[..., idx], (float(rest.abs().max()) if rest.numel() else 0.0)
 
 
 def rationalise(x: float, D: int = 10 ** 4):
@@ -353,13 +381,18 @@ def maxdiff(a, b) -> float:
 
 
 def fmt(t) -> list | str:
-    return t if isinstance(t, str) else [float(v) for v in t.tolist()]
+    if isinstance(t, str):
+        return t
+    if t.numel() > 24:                      # wide presentations: the non-zero entries (at most 12 of them)
+        nz = t.nonzero().flatten().tolist()
+        return [f"[{j}]={float(t[j]):.6g}" for j in nz[:12]] + [f"... {len(nz)} non-zero of {t.numel()} entries"]
+    return [float(v) for v in t.tolist()]
 
 
 def sample_scenarios(scn: list[dict], budget: int, rng: random.Random, keep=lambda s: False) -> list[dict]:
     """Deterministic sub-sample: all scenarios satisfying `keep` first, the rest drawn with rng."""
     scn = sorted(scn, key=lambda s: (s["id"], s["steps"], str(s["rp"]), str(s["Q"]), str(s["c1"]), str(s["c2"]),
-                                     s["a"], s["b"]))
+                                     s["a"], s["b"], s["pad"]["cnt"], s["pad"]["lay"]))
     must = [s for s in scn if keep(s)]
     rest = [s for s in scn if not keep(s)]
     if len(must) + len(rest) <= budget:
